@@ -286,7 +286,7 @@ func (c *Ctl) WaitThread(tid int, timeout time.Duration) int {
 		if time.Now().After(deadline) {
 			return st
 		}
-		time.Sleep(20 * time.Microsecond)
+		time.Sleep(100 * time.Microsecond)
 	}
 }
 
